@@ -269,9 +269,9 @@ theorem versOf_append (db : DB) (k : VKey) (e : Ent) (ds id : Nat) :
   congr 1
   by_cases hk : k.ds = ds ∧ k.rid = id <;> simp [List.filter, hk]
 
-theorem append_invV {db : DB} {S : Spec} (h : InvV db S) (ds t i : Nat) (e : Ent) (prev : Option Ent) (ib : Bool)
+theorem append_invV {db : DB} {S : Spec} (h : InvV db S) (ds t i : Nat) (e : Ent) (prev : Option Ent) (ib : Bool) (nw : Bool)
     (hfresh : (⟨e.rid, ds, t, i⟩ : VKey) ∉ db.versions.map (·.1)) :
-    InvV (appendVersion db ds t i e prev ib) (specAppend ds t i S e) := by
+    InvV (appendVersion db ds t i e prev ib nw) (specAppend ds t i S e) := by
   refine ⟨?_, ?_, ?_, ?_, ?_⟩
   · intro d j
     simp only [versOf, appendVersion, specAppend]
@@ -316,9 +316,9 @@ theorem feedOf_append (db : DB) (d pos : Nat) (k : VKey) (ds : Nat) :
   congr 1
   by_cases hk : d = ds <;> simp [List.filter, hk]
 
-theorem append_invF {db : DB} {S : Spec} (h : InvF db S) (ds t i : Nat) (e : Ent) (prev : Option Ent) (ib : Bool) :
-    InvF (appendVersion db ds t i e prev ib) (specAppend ds t i S e) := by
-  have hpos : ∀ d, (appendVersion db ds t i e prev ib).posOf d = if d = ds then db.posOf ds + 1 else db.posOf d := by
+theorem append_invF {db : DB} {S : Spec} (h : InvF db S) (ds t i : Nat) (e : Ent) (prev : Option Ent) (ib : Bool) (nw : Bool) :
+    InvF (appendVersion db ds t i e prev ib nw) (specAppend ds t i S e) := by
+  have hpos : ∀ d, (appendVersion db ds t i e prev ib nw).posOf d = if d = ds then db.posOf ds + 1 else db.posOf d := by
     intro d
     simp only [appendVersion, DB.posOf]
     by_cases hd : d = ds
@@ -359,8 +359,8 @@ theorem append_invF {db : DB} {S : Spec} (h : InvF db S) (ds t i : Nat) (e : Ent
       simp only [hd', if_false]
       exact h.bound d c hc
 
-theorem appendVersion_itemsOf (db : DB) (ds t i : Nat) (e : Ent) (prev : Option Ent) (ib : Bool) (d : Nat) :
-    (appendVersion db ds t i e prev ib).itemsOf d = db.itemsOf d := rfl
+theorem appendVersion_itemsOf (db : DB) (ds t i : Nat) (e : Ent) (prev : Option Ent) (ib : Bool) (nw : Bool) (d : Nat) :
+    (appendVersion db ds t i e prev ib nw).itemsOf d = db.itemsOf d := rfl
 
 /-! ### the loop -/
 
@@ -378,11 +378,11 @@ theorem prev_eq_last {snap : DB} {S0 : Spec} (hsnap : Inv snap S0) {ds t i : Nat
   | some p => simp [h.locSome rid p hl]
   | none => simp only []; rw [stored_eq_last hsnap.v, h.locNone rid hl]
 
-theorem step_ok {snap : DB} {S0 : Spec} (hsnap : Inv snap S0) {ds t i : Nat}
+theorem step_ok {snap : DB} {S0 : Spec} (hsnap : Inv snap S0) {ds t i : Nat} (nw : List Nat)
     {db : DB} {loc : List (Nat × Ent)} {S : Spec}
     (h : LoopInv snap S0 ds t i db loc S) (e : Ent) :
-    LoopInv snap S0 ds t (i + 1) (writeOne snap ds t (db, loc) (i, e)).1
-      (writeOne snap ds t (db, loc) (i, e)).2 (specOne ds t S (i, e)) := by
+    LoopInv snap S0 ds t (i + 1) (writeOne snap ds t nw (db, loc) (i, e)).1
+      (writeOne snap ds t nw (db, loc) (i, e)).2 (specOne ds t S (i, e)) := by
   have hprev := prev_eq_last hsnap h e.rid
   have hC := count_invC h.inv.c ds (prevOf snap ds loc e.rid) e.rid hprev
   have hV := count_invV h.inv.v ds (prevOf snap ds loc e.rid) e.rid
@@ -390,7 +390,7 @@ theorem step_ok {snap : DB} {S0 : Spec} (hsnap : Inv snap S0) {ds t i : Nat}
   by_cases heq : prevOf snap ds loc e.rid = some e
   · -- identical to the version it would replace: skipped
     have heq' : lastEnt (S.vers ds e.rid) = some e := hprev ▸ heq
-    have hw : writeOne snap ds t (db, loc) (i, e) = (countNew db ds (prevOf snap ds loc e.rid), loc) := by
+    have hw : writeOne snap ds t nw (db, loc) (i, e) = (countNew db ds (prevOf snap ds loc e.rid), loc) := by
       simp only [writeOne, heq, if_true]
     have hs : specOne ds t S (i, e) = specCount ds S e.rid := by
       simp only [specOne, heq', if_true]
@@ -413,8 +413,8 @@ theorem step_ok {snap : DB} {S0 : Spec} (hsnap : Inv snap S0) {ds t i : Nat}
       · exact Or.inl hlt
       · exact Or.inr ⟨h1, Nat.lt_succ_of_lt h2⟩
   · have heq' : ¬ lastEnt (S.vers ds e.rid) = some e := fun hc => heq (hprev ▸ hc)
-    have hw : writeOne snap ds t (db, loc) (i, e)
-        = (appendVersion (countNew db ds (prevOf snap ds loc e.rid)) ds t i e (prevOf snap ds loc e.rid) (loc.lookup e.rid).isSome,
+    have hw : writeOne snap ds t nw (db, loc) (i, e)
+        = (appendVersion (countNew db ds (prevOf snap ds loc e.rid)) ds t i e (prevOf snap ds loc e.rid) (loc.lookup e.rid).isSome (nw.contains e.rid),
            (e.rid, e) :: loc) := by
       simp only [writeOne, heq, if_false]
     have hs : specOne ds t S (i, e) = specAppend ds t i (specCount ds S e.rid) e := by
@@ -428,7 +428,7 @@ theorem step_ok {snap : DB} {S0 : Spec} (hsnap : Inv snap S0) {ds t i : Nat}
       rcases h.bound v hv hd with hlt | ⟨_, h2⟩
       · rw [hk] at hlt; exact Nat.lt_irrefl _ hlt
       · rw [hk] at h2; exact Nat.lt_irrefl _ h2
-    refine ⟨⟨append_invV hV ds t i e _ _ hfresh, append_invF hF ds t i e _ _, ⟨?_, ?_, ?_⟩⟩, ?_, ?_, ?_⟩
+    refine ⟨⟨append_invV hV ds t i e _ _ _ hfresh, append_invF hF ds t i e _ _ _, ⟨?_, ?_, ?_⟩⟩, ?_, ?_, ?_⟩
     · intro d; rw [appendVersion_itemsOf]; exact hC.1 d
     · exact hC.2.1
     · intro d id
@@ -480,21 +480,21 @@ theorem step_ok {snap : DB} {S0 : Spec} (hsnap : Inv snap S0) {ds t i : Nat}
         · exact Or.inr ⟨h1, Nat.lt_succ_of_lt h2⟩
       · exact Or.inr ⟨rfl, Nat.lt_succ_self _⟩
 
-theorem loop_ok {snap : DB} {S0 : Spec} (hsnap : Inv snap S0) (ds t : Nat) :
+theorem loop_ok {snap : DB} {S0 : Spec} (hsnap : Inv snap S0) (ds t : Nat) (nw : List Nat) :
     ∀ (xs : List Ent) (i : Nat) (db : DB) (loc : List (Nat × Ent)) (S : Spec),
       LoopInv snap S0 ds t i db loc S →
-      Inv (writeFrom snap ds t i xs (db, loc)).1 (specFrom ds t i xs S)
+      Inv (writeFrom snap ds t nw i xs (db, loc)).1 (specFrom ds t i xs S)
   | [], _, _, _, _, h => h.inv
   | e :: xs, i, db, loc, S, h => by
     unfold writeFrom specFrom
-    exact loop_ok hsnap ds t xs (i + 1) _ _ _ (step_ok hsnap h e)
+    exact loop_ok hsnap ds t nw xs (i + 1) _ _ _ (step_ok hsnap nw h e)
 
 /-- Refinement: a batch committed at a time later than every version already in the dataset keeps
 the invariant, for every batch (any length, repeated ids, delete/un-delete). -/
 theorem inv_storeBatch {db : DB} {S : Spec} (h : Inv db S) (ds t : Nat)
-    (hfresh : ∀ v ∈ db.versions, v.1.ds = ds → v.1.t < t) (b : List Ent) :
-    Inv (storeBatch db ds t b) (specFrom ds t 0 b S) :=
-  loop_ok h ds t b 0 db [] S
+    (hfresh : ∀ v ∈ db.versions, v.1.ds = ds → v.1.t < t) (b : List Ent) (nw : List Nat := []) :
+    Inv (storeBatch db ds t b nw) (specFrom ds t 0 b S) :=
+  loop_ok h ds t nw b 0 db [] S
     ⟨h, by intro id p hl; simp at hl, by intro id _; rfl, fun v hv hd => Or.inl (hfresh v hv hd)⟩
 
 theorem inv_empty : Inv {} {} := by
